@@ -8,6 +8,7 @@ use serde_json::json;
 use truc::record::type_resolver::{HostTypeResolver, TypeResolver};
 
 include!("types_quick.rs");
+include!("types_extra.rs");
 #[cfg(feature = "thorough")]
 include!("types_thorough.rs");
 
@@ -21,6 +22,7 @@ fn main() {
     let list = catch_unwind(|| {
         let mut v = Vec::new();
         quick_all(&mut v);
+        extra_chunk(&mut v);
         #[cfg(feature = "thorough")]
         thorough_all(&mut v);
         v
@@ -31,6 +33,9 @@ fn main() {
     match list {
         Ok(list) => {
             for (i, (src, name)) in list.iter().enumerate() {
+                // (stringify! breaks long types over several lines: one probe per line is what the index relies on)
+                let src = src.replace('\n', " ");
+                let name = name.replace('\n', " ");
                 let _ = writeln!(
                     text,
                     "pub fn p{i}() {{ let _: core::marker::PhantomData<{src}> = core::marker::PhantomData::<{name}>; }}",
